@@ -501,6 +501,24 @@ pub fn scenarios(tier: Tier) -> Vec<(String, Vec<Scenario>)> {
       }
     }
   }
+  // ... and with a backlog far larger than the peer's queue (RCVHWM=1): the pending queue has to be
+  // forwarded against a full peer, repeatedly
+  for n in [12usize, 30] {
+    for transport in [Transport::Duplex(1 << 16), Transport::Duplex(64), Transport::Inproc] {
+      for sndtimeo in [-1, 0] {
+        for pacing in [Pacing::Eager, Pacing::AfterSends] {
+          let mut s = base(Pair::DealerRouter, transport);
+          s.first = FirstSend::BeforeConnect;
+          s.sndhwm = 256;
+          s.rcvhwm = 1;
+          s.sndtimeo = sndtimeo;
+          s.pacing = pacing;
+          s.msgs = (0..n).map(|i| vec![1 + (i % 7)]).collect();
+          g.push(s);
+        }
+      }
+    }
+  }
   groups.push(("dealer-queue-before-connect".to_string(), g));
   // (4) default limits with large messages (100 KiB .. 1 MiB)
   let mut g = vec![];
